@@ -59,3 +59,24 @@ Proof.
   destruct H as (A & B & _ & C & _). auto.
 Qed.
 Print Assumptions C16_across_recovery.
+
+(* ---- the Go arithmetic this property rests on, AS TRANSLATED FROM THE CURRENT SOURCES by tools/gotrans
+   (gen/Funcs.v, operators in GoSem.v), equals the model's, for all values of the Go types ---- *)
+From Coq Require Import ZArith NArith Bool.
+From Pogreb Require Import Base Record Index GoSem FuncsIndexCheck FuncsRecordCheck FuncsLogCheck FuncsFSCheck.
+From Pogreb.gen Require Funcs Consts.
+Import Funcs.
+Open Scope Z_scope.
+
+Theorem C16_go_put_limits :
+  forall klen vlen : N,
+  go_key_too_large (Z.of_N klen) = (max_key_len <? klen)%N /\ go_value_too_large (Z.of_N vlen) = (max_val_len <? vlen)%N.
+Proof. exact put_limits_ok. Qed.
+Print Assumptions C16_go_put_limits.
+
+Theorem C16_go_encode_sizes :
+  forall r : rec, (nlen (rk r) <= max_key_len)%N -> (nlen (rv r) <= max_val_len)%N ->
+  go_encode_sizes (Z.of_N (nlen (rk r))) (Z.of_N (nlen (rv r))) (if rdel r then 1 else 0) = (Z.of_N (rsize r), Z.of_N (vfield r)).
+Proof. exact encode_sizes_ok. Qed.
+Print Assumptions C16_go_encode_sizes.
+
